@@ -54,12 +54,15 @@ type scenario struct {
 	vsDefault   settings        // VerifSettings right after GetInstance
 	earlyGuard  bool            // queue: the last record left the queue less than the wait time after the sender was created ⇒ no idle-timeout flush can separate two records
 	notAccepted map[string]bool // capacity scenarios: records the full queue must have refused
+	inQueue     map[string]bool // stop scenarios: records found in the queue after the goroutine had ended (never taken)
+	late        map[string]bool // stop scenarios: records put after the cancellation
 	Desc        map[string]interface{}
 }
 
 func newScenario(c *vlib.Ctx, section, path string, mode byte) *scenario {
 	return &scenario{c: c, Section: section, Path: path, Mode: mode, byID: map[string]*recSpec{},
-		tailIDs: map[string]bool{}, notAccepted: map[string]bool{}, Desc: map[string]interface{}{}}
+		tailIDs: map[string]bool{}, notAccepted: map[string]bool{},
+		inQueue: map[string]bool{}, late: map[string]bool{}, Desc: map[string]interface{}{}}
 }
 
 func (sc *scenario) hand(sp *recSpec) {
@@ -433,6 +436,19 @@ func (sc *scenario) evaluate() {
 			c.Count("packs_closed_by_time", 1)
 		case final:
 			c.Count("packs_closed_by_stop_or_tail", 1)
+			if sc.hs[pi].AfterCancel {
+				// handed over after the cancellation with neither trigger reached: these records
+				// were buffered (or still queued) when the sender was stopped
+				c.Count("packs_flushed_by_stop", 1)
+				if sc.Section == "queue-stop" {
+					c.Count("stop_scenarios_with_buffered_records_flushed_by_stop", 1)
+				}
+				for _, sp := range d.specs {
+					if !sc.late[sp.ID] {
+						c.Count("records_buffered_at_cancel_flushed_by_stop", 1)
+					}
+				}
+			}
 		case sc.Path == "queue" && !sc.earlyGuard:
 			c.Count("packs_closed_by_idle_or_unjudged", 1)
 		default:
@@ -464,6 +480,13 @@ func (sc *scenario) evaluate() {
 					E := sc.Epochs[sp.setIndex]
 					fail(sc.attr(E, "logsink_queue_size", "ZipSender:queue-capacity"),
 						fmt.Sprintf("record %s was put while the queue already held %d records (the capacity in force) and was emitted nevertheless", sp.ID, E.S.Queue), nil)
+				}
+				continue
+			}
+			if sc.inQueue[sp.ID] {
+				// never taken by the stopped sender: nothing is owed for it
+				if n > 0 {
+					fail("ZipSender:record-duplicated", fmt.Sprintf("record %s was emitted and is still in the queue after the sender's goroutine has ended", sp.ID), nil)
 				}
 				continue
 			}
